@@ -359,21 +359,6 @@ func (p *path) addRule(
 		invalid(tok)
 	}
 
-	// A rule conflicts with an earlier one bound to the same kind on this path:
-	// kind '*' is held by methodAll, every other kind by methods[verb].
-	existing := cursor.methodAll
-	if verb != "*" {
-		existing = cursor.methods[verb]
-	}
-	if existing != nil {
-		if existing.desc.FullName() != desc.FullName() {
-			return fmt.Errorf("duplicate rule %v", rule)
-		}
-		// Method already registered for this pattern; the rule's additional
-		// bindings may still be new.
-		return p.addAdditionalBindings(rule, desc, name)
-	}
-
 	m := &method{
 		desc: desc,
 		vars: varfds,
@@ -399,6 +384,21 @@ func (p *path) addRule(
 		if m.resp == nil {
 			return fmt.Errorf("response body field error %v", rule.ResponseBody)
 		}
+	}
+
+	// A rule conflicts with an earlier one bound to the same kind on this path:
+	// kind '*' is held by methodAll, every other kind by methods[verb].
+	existing := cursor.methodAll
+	if verb != "*" {
+		existing = cursor.methods[verb]
+	}
+	if existing != nil {
+		if existing.desc.FullName() != desc.FullName() {
+			return fmt.Errorf("duplicate rule %v", rule)
+		}
+		// Method already registered for this pattern; the rule's additional
+		// bindings may still be new.
+		return p.addAdditionalBindings(rule, desc, name)
 	}
 
 	// register method
